@@ -77,13 +77,17 @@ try:
                          "no_failing_input": any("no-failing-input-found" in l for l in lines),
                          "detail": (detail or "")[:400], "secs": round(time.time() - t0, 1)}
             meta["ran"].append("VERIF_REPO=<scratch copy with the change> ./check %s -> rc %d" % (c, rc))
+        if os.environ.get("EVAL_MERGE") and os.path.exists(os.path.join("/verif/seeded", name, "meta.json")):
+            old = json.load(open(os.path.join("/verif/seeded", name, "meta.json"))).get("checks", {})
+            old.update(caught)
+            caught = dict(sorted(old.items()))
         meta["checks"] = caught
         meta["caught_by"] = sorted(c for c, v in caught.items() if v["violation"])
         meta["caught_with_concrete_input"] = sorted(c for c, v in caught.items() if v["violation"] and not v["no_failing_input"])
     dst = os.path.join("/verif/seeded", name)
     os.makedirs(dst, exist_ok=True)
     for f in ("patch.diff", "demo_test.go", "notes.md"):
-        if os.path.exists(os.path.join(src, f)):
+        if os.path.exists(os.path.join(src, f)) and os.path.abspath(src) != os.path.abspath(dst):
             shutil.copy(os.path.join(src, f), os.path.join(dst, f))
     meta["needs"] = ""
     json.dump(meta, open(os.path.join(dst, "meta.json"), "w"), indent=1)
